@@ -308,6 +308,74 @@ theorem C12_burst_in_order (bodies : List Body) (s : St) (l : Listener) (hl : l 
     | notJson => exact ih s l hl hk
     | notUtf8 => exact ih s l hl hk
 
+/-! ## whole histories -/
+
+/-- what a listener that stays registered must have been told by the end of a history -/
+def deliveredTo : St → List Ev → List (List Ch)
+  | _, [] => []
+  | s, e :: es =>
+    (match e with
+      | .events bodies => if s.connected then keysOf bodies else []
+      | .connect => if s.connected then [] else [[]]
+      | _ => []) ++ deliveredTo (step s e) es
+
+theorem stays (s : St) (e : Ev) (l : Listener) (hl : l ∈ s.listeners) (hk : l.kind ≠ .removesSelf)
+    (hr : e ≠ .removeListener l.id) :
+    { l with log := l.log ++ (deliveredTo s [e]) } ∈ (step s e).listeners := by
+  cases e with
+  | subscribe cs =>
+    simp only [deliveredTo, List.append_nil, step]
+    split <;> simpa using hl
+  | unsubscribe cs =>
+    simp only [deliveredTo, List.append_nil, step]
+    split <;> simpa using hl
+  | cutSubscribe cs =>
+    simp only [deliveredTo, List.append_nil, step]
+    split <;> simpa using hl
+  | drop => simpa [deliveredTo, step] using hl
+  | connect =>
+    simp only [deliveredTo, List.append_nil, step]
+    split
+    · simpa using hl
+    · have := (C12_deliver_exactly_once { s with connected := true, session := s.session + 1, registered := [] } []).1 l hl hk
+      simp only [onConnected]
+      split <;> simpa using this
+  | addListener id k =>
+    simp only [deliveredTo, List.append_nil, step]
+    split
+    · simpa using hl
+    · simp [hl]
+  | removeListener id =>
+    simp only [deliveredTo, List.append_nil, step, List.mem_filter]
+    refine ⟨by simpa using hl, ?_⟩
+    simp only [ne_eq, decide_eq_true_eq]
+    intro h
+    apply hr
+    rw [h]
+  | events bodies =>
+    simp only [deliveredTo, List.append_nil, step]
+    split
+    · exact C12_burst_in_order bodies s l hl hk
+    · simpa using hl
+
+/-- **Exactly once, in order, over whole histories.**  A listener that is registered and is not removed during a
+    history has, at its end, been called exactly with the events the accessory sent while the pairing was connected
+    (one call per EVENT message, in the order sent) and one "connection is back" call per reconnection - nothing
+    more, nothing less, whatever else happened in between (subscribe/unsubscribe, drops, other listeners coming,
+    going, raising). -/
+theorem C12_history_exactly_once (evs : List Ev) (s : St) (l : Listener) (hl : l ∈ s.listeners)
+    (hk : l.kind ≠ .removesSelf) (hr : ∀ e ∈ evs, e ≠ .removeListener l.id) :
+    { l with log := l.log ++ deliveredTo s evs } ∈ (run s evs).listeners := by
+  induction evs generalizing s l with
+  | nil => simpa [deliveredTo, run] using hl
+  | cons e es ih =>
+    have h1 := stays s e l hl hk (hr e (by simp))
+    have := ih (step s e) { l with log := l.log ++ deliveredTo s [e] } h1 hk (fun e' he' => hr e' (by simp [he']))
+    simp only [deliveredTo, List.append_nil] at this
+    simp only [run, List.foldl_cons, deliveredTo]
+    simpa [List.append_assoc, run] using this
+
+
 /-- junk bodies are ignored without any effect; while disconnected nothing is delivered -/
 theorem C12_junk_ignored (s : St) (bodies : List Body) :
     deliverBody s .empty = s ∧ deliverBody s .notJson = s ∧ deliverBody s .notUtf8 = s ∧
